@@ -37,6 +37,8 @@ type vfSrvCfg struct {
 	// WithRSAllocator() calls (an embedder builds its option list once and applies it to every connection)
 	AllocOpt   ServerOption
 	AllocOptRS RequestServerOption
+	// PacketCount: the server's packet counter before Serve starts (a session that has already handled that many packets)
+	PacketCount uint32
 }
 
 func (c vfSrvCfg) String() string {
@@ -77,6 +79,9 @@ func vfServe(cfg vfSrvCfg, e *vfEnd) (*vfSrv, error) {
 			return nil, err
 		}
 		s.os = srv
+		if cfg.PacketCount != 0 {
+			srv.pktMgr.packetCount = cfg.PacketCount
+		}
 		go func() {
 			s.err = srv.Serve()
 			close(s.done)
@@ -96,6 +101,9 @@ func vfServe(cfg vfSrvCfg, e *vfEnd) (*vfSrv, error) {
 		}
 		srv := NewRequestServer(e, cfg.H, opts...)
 		s.rs = srv
+		if cfg.PacketCount != 0 {
+			srv.pktMgr.packetCount = cfg.PacketCount
+		}
 		go func() {
 			s.err = srv.Serve()
 			close(s.done)
@@ -105,6 +113,13 @@ func vfServe(cfg vfSrvCfg, e *vfEnd) (*vfSrv, error) {
 }
 
 func (s *vfSrv) Done() <-chan struct{} { return s.done }
+
+func (s *vfSrv) pktMgr() *packetManager {
+	if s.os != nil {
+		return s.os.pktMgr
+	}
+	return s.rs.pktMgr
+}
 
 func (s *vfSrv) alloc() *allocator {
 	if s.os != nil {
